@@ -22,6 +22,8 @@ func TestVerif(t *testing.T) {
 		h = c02Harness{}
 	case "C07":
 		h = c07Harness{}
+	case "C15":
+		h = c15Harness{}
 	case "C04", "C05", "C06":
 		h = resumeHarness{prop: e.Prop}
 	default:
